@@ -603,10 +603,24 @@ func runRacePass(prop string, secs int) map[string]interface{} {
 	cmd.Stdout = &so
 	cmd.Stderr = &limitedWriter{max: 1 << 17, buf: &se}
 	cmd.Env = append(os.Environ(), "GORACE=halt_on_error=1 exitcode=66")
+	// the free-running bodies can deadlock for real when the property is broken (the explorer
+	// reports that deterministically); the sampler must not hang the check then. The limit is
+	// generous (no short wall-clock oracle) and running into it is reported, never a violation.
+	grace := time.Duration(secs+300) * time.Second
+	hung := false
+	timer := time.AfterFunc(grace, func() {
+		hung = true
+		if cmd.Process != nil {
+			cmd.Process.Kill()
+		}
+	})
 	err := cmd.Run()
+	timer.Stop()
 	out["summary"] = strings.TrimSpace(so.String())
 	es := se.String()
 	switch {
+	case hung:
+		out["status"] = fmt.Sprintf("stopped after %v without finishing (possibly a deadlock of the free-running bodies; not a verdict)", grace)
 	case strings.Contains(es, "WARNING: DATA RACE"):
 		out["class"] = "data-race"
 		out["report"] = es
